@@ -283,3 +283,27 @@ def build_with_parts(s, mode):
     root = b.build(s)
     parts = [o for o in b.nodes if o is not root and type(o).__name__ not in ("Variable", "Constant")]
     return root, parts
+
+
+def has_undefined_constant_part(s):
+    """Does the tree contain a variable-free sub-tree that the reference cannot evaluate (undefined or indeterminate)?
+    What such a part is worth after the simplifier has enlarged its domain is known only to the simplifier, so the
+    magnitudes - hence the scope - of the folded tree cannot be decided from outside."""
+    def walk(t):
+        if t[0] == "Variable":
+            return True, False
+        if t[0] == "Constant":
+            return False, False
+        res = [walk(c) for c in S.children(t)]
+        has_var = any(r[0] for r in res)
+        bad = any(r[1] for r in res)
+        if not has_var and not bad:
+            st = R.NORMAL.evaluate(t, {}).status
+            if st in ("undef", "indet"):
+                bad = True
+        return has_var, bad
+    return walk(s)[1]
+
+
+def overflow_excusable(s, outcome):
+    return outcome.kind == "exc" and outcome.exc_type == "OverflowError" and has_undefined_constant_part(s)
